@@ -349,6 +349,81 @@ Section C01.
   Qed.
 End C01.
 
+(** * Compact statements (the hypotheses bundled), used by Properties/C01.v *)
+
+(** Ideal signature scheme: [verify] accepts exactly the signature [sign (sk_of pk) m]; a
+    signature determines signer and message; distinct public keys have distinct secret keys. *)
+Definition ideal_signatures (verify_sig : bytes -> list token -> bytes -> bool)
+           (sign : bytes -> list token -> bytes) (sk_of : bytes -> bytes) : Prop :=
+  (forall pk m s, verify_sig pk m s = true <-> s = sign (sk_of pk) m)
+  /\ (forall k m k' m', sign k m = sign k' m' -> k = k' /\ m = m')
+  /\ (forall a b, sk_of a = sk_of b -> a = b).
+
+Definition injective_hash (hash_body : bytes -> bytes) : Prop :=
+  forall a b, hash_body a = hash_body b -> a = b.
+
+Section Compact.
+  Variable verify_sig : bytes -> list token -> bytes -> bool.
+  Variable hash_body : bytes -> bytes.
+  Variable order : list bytes -> list bytes.
+  Variable sign : bytes -> list token -> bytes.
+  Variable sk_of : bytes -> bytes.
+  Hypothesis sigs : ideal_signatures verify_sig sign sk_of.
+  Hypothesis hinj : injective_hash hash_body.
+  Hypothesis operm : is_perm_fun order.
+
+  Let vspec := proj1 sigs.
+  Let sinj := proj1 (proj2 sigs).
+  Let kinj := proj2 (proj2 sigs).
+
+  Theorem c_validate_iff : forall op,
+    validate_operation verify_sig hash_body order op = None <-> good hash_body order sign sk_of op.
+  Proof.
+    intro op. split; [apply (validate_sound _ _ _ _ _ vspec) | apply (validate_complete _ _ _ _ _ vspec)].
+  Qed.
+
+  Theorem c_tamper_rejected : forall op op',
+    canonical (op_header op) -> canonical (op_header op') ->
+    validate_operation verify_sig hash_body order op = None -> single_tamper op op' ->
+    validate_operation verify_sig hash_body order op' <> None.
+  Proof. exact (tamper_rejected _ _ _ _ _ vspec sinj kinj hinj operm). Qed.
+
+  Theorem c_same_signature_same_header : forall h h',
+    canonical h -> canonical h' ->
+    validate_header verify_sig order h = None -> validate_header verify_sig order h' = None ->
+    h_sig h' = h_sig h -> h' = h.
+  Proof. exact (same_signature_same_header _ _ _ _ vspec sinj kinj operm). Qed.
+
+  Theorem c_body_removal_accepted : forall op,
+    validate_operation verify_sig hash_body order op = None ->
+    validate_operation verify_sig hash_body order (mkOp (op_hash op) (op_header op) None) = None.
+  Proof. exact (body_removal_accepted _ _ _ _ _ vspec). Qed.
+
+  Theorem c_empty_attached_body_rejected : forall op,
+    op_body op = Some [] -> validate_operation verify_sig hash_body order op <> None.
+  Proof. exact (empty_attached_body_rejected _ _ _ _ _ vspec). Qed.
+
+  Theorem c_missing_payload_hash_unreachable : forall op,
+    validate_operation verify_sig hash_body order op <> Some MissingPayloadHash.
+  Proof. exact (missing_payload_hash_unreachable _ _ _ _ _ vspec). Qed.
+
+  Variable store : Type.
+  Variable has_op : store -> bytes -> bool.
+  Variable log_check : store -> operation -> option op_error.
+  Variable insert : store -> operation -> store.
+
+  Theorem c_ingest_tamper_unchanged : forall s op op',
+    canonical (op_header op) -> canonical (op_header op') ->
+    validate_operation verify_sig hash_body order op = None -> single_tamper op op' ->
+    exists e, ingest verify_sig hash_body order store has_op log_check insert s op' = (s, Rejected e).
+  Proof. exact (ingest_tamper_unchanged _ _ _ _ _ vspec sinj kinj hinj operm store has_op log_check insert). Qed.
+
+  Theorem c_ingest_inserted_only_if_good : forall s op s',
+    ingest verify_sig hash_body order store has_op log_check insert s op = (s', Inserted) ->
+    good hash_body order sign sk_of op /\ has_op s (op_hash op) = false /\ log_check s op = None /\ s' = insert s op.
+  Proof. exact (ingest_inserted_only_if_valid _ _ _ _ _ vspec store has_op log_check insert). Qed.
+End Compact.
+
 (** * The ideal (free term) instance satisfies the hypotheses *)
 
 Lemma app_same_length_inj : forall (A : Type) (a a' b b' : list A),
@@ -390,6 +465,13 @@ Proof. intros pk m s. unfold ideal_verify. apply bytes_eqb_eq. Qed.
 
 Lemma ideal_hash_inj : forall a b, ideal_hash a = ideal_hash b -> a = b.
 Proof. intros a b E. unfold ideal_hash in E. inversion E. reflexivity. Qed.
+
+(** The bundled hypotheses are satisfiable. *)
+Theorem ideal_instance_signatures : ideal_signatures ideal_verify ideal_sign (fun x => x).
+Proof. split; [exact ideal_verify_spec | split; [exact ideal_sign_inj | intros a b E; exact E]]. Qed.
+
+Theorem ideal_instance_hash : injective_hash ideal_hash.
+Proof. exact ideal_hash_inj. Qed.
 
 (** Non-vacuity: a concrete operation (payload, backlink, Node causal extension with two previous
     hashes) that validates under the ideal instance, its tampered variants that do not. *)
